@@ -1,3 +1,38 @@
-import Driver.Util
-/-! stub: replaced by the owner of this driver -/
-def main : IO Unit := Drv.mainLoop (fun _ => "bad-op")
+import Invoke.Model.Env
+import Driver.ValCodec
+/-! drv_env: line-protocol driver over `Model/Env.lean` (C16).
+    load <prefix> <environ> <tree>   -> ok <env-level tree> | err:<ExceptionClass>
+    crawl <tree>                      -> ok VAR=k/k/k;...    | err:AmbiguousEnvVar
+    cast <leaf> <chars>               -> ok <leaf> | err:<ExceptionClass>
+    int <chars> / upper <chars>       -> CPython `int(s)` / `s.upper()` on ASCII -/
+open Inv Drv Drv.VC
+
+def encPath (p : List Key) : String := "/".intercalate (p.map encChars)
+
+def step (line : String) : String :=
+  match line.splitOn " " with
+  | ["load", pre, env, tree] =>
+    match decTree tree with
+    | none => "bad-tree"
+    | some c => match loadEnv (decStr pre) (decEnviron env) c with
+      | .ok d => "ok " ++ encTree d
+      | .error e => "err:" ++ errName e
+  | ["crawl", tree] =>
+    match decTree tree with
+    | none => "bad-tree"
+    | some c => match crawl [] c [] with
+      | .ok vars => "ok " ++ ";".intercalate (vars.map (fun e => encChars e.1 ++ "=" ++ encPath e.2))
+      | .error e => "err:" ++ errName e
+  | ["cast", leaf, s] =>
+    match decLeaf leaf with
+    | none => "bad-leaf"
+    | some old => match castLeaf old (decStr s) with
+      | .ok l => "ok " ++ ",".intercalate (encLeaf l)
+      | .error e => "err:" ++ errName e
+  | ["int", s] => match pyInt (decStr s) with
+    | some n => "ok " ++ toString n
+    | none => "err:ValueError"
+  | ["upper", s] => "ok " ++ encChars ((decStr s).map upperChar)
+  | _ => "bad-op"
+
+def main : IO Unit := mainLoop step
